@@ -24,6 +24,51 @@ fn mk_tx(units: &[(u64, u64)], with_redeemers: bool, pad: usize) -> Transaction 
     Transaction::new(&body, &ws, None)
 }
 
+fn cbor_uint(major: u8, v: u64, out: &mut Vec<u8>) {
+    let m = major << 5;
+    if v < 24 { out.push(m | v as u8) } else if v < 0x100 { out.push(m | 24); out.push(v as u8) }
+    else if v < 0x1_0000 { out.push(m | 25); out.extend_from_slice(&(v as u16).to_be_bytes()) }
+    else if v < 0x1_0000_0000 { out.push(m | 26); out.extend_from_slice(&(v as u32).to_be_bytes()) }
+    else { out.push(m | 27); out.extend_from_slice(&v.to_be_bytes()) }
+}
+
+/// Redeemers written by hand in the array (`a`) or map (`m`) wire form, repeated (tag, index) keys included, and read
+/// back by the library; `n` builds them with new() + add(). Upper-case: the whole transaction additionally goes through
+/// to_bytes / from_bytes. "All redeemers" of the property are all entries the collection holds (len() of it).
+fn mk_tx_decoded(fmt: &str, ents: &[(u64, u64, u64, u64)]) -> Result<Transaction, String> {
+    let mut rs = Redeemers::new();
+    match fmt.to_ascii_lowercase().as_str() {
+        "n" => for (t, i, m, s) in ents {
+            let tag = match t % 6 { 0 => RedeemerTag::new_spend(), 1 => RedeemerTag::new_mint(), 2 => RedeemerTag::new_cert(), 3 => RedeemerTag::new_reward(), 4 => RedeemerTag::new_vote(), _ => RedeemerTag::new_voting_proposal() };
+            rs.add(&Redeemer::new(&tag, &BigNum::from(*i), &PlutusData::new_integer(&BigInt::from_str("0").unwrap()), &ExUnits::new(&BigNum::from(*m), &BigNum::from(*s))));
+        },
+        f => {
+            let mut b = Vec::new();
+            cbor_uint(if f == "m" { 5 } else { 4 }, ents.len() as u64, &mut b);
+            for (t, i, m, s) in ents {
+                if f == "m" { b.push(0x82); cbor_uint(0, t % 6, &mut b); cbor_uint(0, *i, &mut b); b.push(0x82); }
+                else { b.push(0x84); cbor_uint(0, t % 6, &mut b); cbor_uint(0, *i, &mut b); }
+                b.push(0x00); b.push(0x82); cbor_uint(0, *m, &mut b); cbor_uint(0, *s, &mut b);
+            }
+            rs = Redeemers::from_bytes(b).map_err(|_| "harness-redeemers-decode-failed".to_string())?;
+        }
+    }
+    if rs.len() != ents.len() { return Err("harness-redeemers-len-differs".into()); }
+    let mut inputs = TransactionInputs::new();
+    inputs.add(&TransactionInput::new(&TransactionHash::from_bytes(vec![7u8; 32]).unwrap(), 0));
+    let body = TransactionBody::new_tx_body(&inputs, &TransactionOutputs::new(), &BigNum::from(170000u64));
+    let mut ws = TransactionWitnessSet::new();
+    ws.set_redeemers(&rs);
+    let tx = Transaction::new(&body, &ws, None);
+    if fmt.chars().all(|c| c.is_ascii_uppercase()) {
+        let tx2 = Transaction::from_bytes(tx.to_bytes()).map_err(|_| "harness-tx-decode-failed".to_string())?;
+        let n2 = tx2.witness_set().redeemers().map(|r| r.len()).unwrap_or(0);
+        if n2 != ents.len() { return Err("harness-tx-redeemers-len-differs".into()); }
+        return Ok(tx2);
+    }
+    Ok(tx)
+}
+
 fn exec(toks: &[String]) -> String {
     let t: Vec<&str> = toks.iter().map(|s| s.as_str()).collect();
     match t.as_slice() {
@@ -43,6 +88,13 @@ fn exec(toks: &[String]) -> String {
             let prices = ExUnitPrices::new(&UnitInterval::new(&bn(p[0]), &bn(p[1])), &UnitInterval::new(&bn(p[2]), &bn(p[3])));
             let tx = mk_tx(&units, k >= 0, n);
             show(min_script_fee(&tx, &prices))
+        }
+        ["msfd", fmt, k, rest @ ..] => {
+            let n: usize = k.parse().unwrap();
+            let ents: Vec<(u64, u64, u64, u64)> = (0..n).map(|i| (rest[4 * i].parse().unwrap(), rest[4 * i + 1].parse().unwrap(), rest[4 * i + 2].parse().unwrap(), rest[4 * i + 3].parse().unwrap())).collect();
+            let p = &rest[4 * n..];
+            let prices = ExUnitPrices::new(&UnitInterval::new(&bn(p[0]), &bn(p[1])), &UnitInterval::new(&bn(p[2]), &bn(p[3])));
+            match mk_tx_decoded(fmt, &ents) { Ok(tx) => show(min_script_fee(&tx, &prices)), Err(e) => e }
         }
         ["ref", size, pn, pd] => {
             let size: usize = size.parse().unwrap();
@@ -108,6 +160,23 @@ fn gen(dir: &str) {
         for _ in 0..k.max(0) {
             let (m, st) = match r.below(5) { 0 => (r.u64_edge(), r.u64_edge()), 1 => (u64::MAX / 2 + r.below(3), r.below(100)), 2 => (r.below(100), u64::MAX / 3 + r.below(3)), _ => (r.below(14_000_000), r.below(10_000_000_000)) };
             s.push_str(&format!(" {} {}", m, st));
+        }
+        let (a, b) = price(&mut r); let (c, d) = price(&mut r);
+        s.push_str(&format!(" {} {} {} {}", a, b, c, d));
+        emit(&mut out, s);
+    }
+    // min_script_fee over redeemers that were DECODED (array and map wire forms, repeated (tag, index) keys, whole-tx round
+    // trip): every entry of the collection counts, whatever form it came in
+    for i in 0..n / 3 {
+        let k = 1 + r.below(6);
+        let fmt = ["n", "a", "m", "N", "A", "M"][(i % 6) as usize];
+        let mut s = format!("msfd {} {}", fmt, k);
+        let (t0, i0) = (r.below(6), r.below(4));
+        for j in 0..k {
+            // repeated keys are frequent: same key as the first entry, as the previous one, or fresh
+            let (t, ix) = match r.below(4) { 0 => (t0, i0), 1 => (t0, i0 + j), 2 => (r.below(6), r.below(3)), _ => (r.below(6), r.below(70000)) };
+            let (m, st) = match r.below(6) { 0 => (r.u64_edge(), r.u64_edge()), 1 => (u64::MAX / 2 + r.below(3), r.below(100)), _ => (r.below(14_000_000), r.below(10_000_000_000)) };
+            s.push_str(&format!(" {} {} {} {}", t, ix, m, st));
         }
         let (a, b) = price(&mut r); let (c, d) = price(&mut r);
         s.push_str(&format!(" {} {} {} {}", a, b, c, d));
